@@ -60,7 +60,7 @@ DESIGN_REF = 'DESIGN.md section 7, C01'
 
 
 def cases(rng, tier):
-    n = 420 if tier == 'quick' else 14000
+    n = 700 if tier == 'quick' else 8000
     for _ in range(n):
         yield PK.gen_data_case(rng, tier) if rng.random() < 0.5 else PK.gen_interest_case(rng, tier)
 
